@@ -115,6 +115,13 @@ func (e *Engine) safety(st *State, cls string, goal *smt.Term, pos token.Pos, ms
 			return
 		}
 	}
+	for i := len(e.callStack) - 1; i >= 0; i-- {
+		if why, ok := e.W.MayPanic[e.callStack[i]]; ok {
+			e.trust("declared maypanic: " + e.callStack[i] + " (" + why + ")")
+			e.assume(st, goal)
+			return
+		}
+	}
 	e.safetySeq++
 	e.oblige(st, fmt.Sprintf("safety:%s.%d", cls, e.safetySeq), KindSafety, goal, pos, msg+" in "+e.where())
 }
